@@ -14,7 +14,7 @@
 (c) whitespace: one iteration of the real tokeniser loop on an input whose
     first character is white space consumes exactly that character and pushes
     no token (so any number of extra spaces between tokens changes nothing).
-(d) keyword look-ahead: the real tokeniser on a symbolic word [a-z]{1,n}
+(d) keyword look-ahead: the real tokeniser on a symbolic word [a-z][a-z0-9_.#\[\]]{0,n-1}
     returns the single token Identifier(word) on every path.
 Redundant parentheses: the reference tree does not contain parentheses, so tree
 equality for all vectors within the bound makes the tree (hence every verdict)
@@ -343,7 +343,7 @@ def main():
     W = 6 if quick else 8
     ck.bounds = {'token vectors': 'length 0..%d, every token class (20 classes: delimiters, float, identifier, integer +/-, 7 operators, '
                                   '4 modifiers, not, all, of)' % L,
-                 'keyword words': '[a-z]{1,%d}' % W, 'whitespace step': 'remaining input <= 4 bytes'}
+                 'keyword words': '[a-z][a-z0-9_.#[]]{0,%d}' % (W - 1), 'whitespace step': 'remaining input <= 4 bytes'}
     ck.assumptions = ['token payloads (names, numbers) are opaque to the parser and compared as terms',
                       'the reference grammar accepts an unclosed trailing parenthesis exactly like the parser does (the statement is silent on malformed input); '
                       'such vectors are counted separately',
@@ -442,8 +442,11 @@ def run_unit(ck, unit):
         ex = ck.new_engine(prog, uni=uni, summarise=('{closure#0}', '{closure#1}'))
         models_chars.install(ex)
         s = models_chars.fresh_utf8('w', W, uni, max_width=1, min_len=1)
-        for b in s.bytes:
-            uni.axioms.append(z3.And(z3.UGE(b, 0x61), z3.ULE(b, 0x7a)))
+        low = lambda b: z3.And(z3.UGE(b, 0x61), z3.ULE(b, 0x7a))
+        uni.axioms.append(low(s.bytes[0]))
+        for b in s.bytes[1:]:
+            # identifier characters: letters, digits, _ . # [ ]
+            uni.axioms.append(z3.Or(low(b), z3.And(z3.UGE(b, 0x30), z3.ULE(b, 0x39)), b == 0x5f, b == 0x2e, b == 0x23, b == 0x5b, b == 0x5d))
         fn = [f for f in prog.fns if f.kind == 'fn' and f.name.endswith('::tokenise')][0]
         res = ex.explore(fn, [Ref(Cont([StrV(s)]), 0)])
         bad = []
